@@ -7,6 +7,7 @@ import (
 	"sort"
 
 	"github.com/spikeekips/mitum/base"
+	"github.com/spikeekips/mitum/launch"
 	"github.com/spikeekips/mitum/util"
 	"github.com/spikeekips/mitum/util/fixedtree"
 	"github.com/spikeekips/mitum/util/hint"
@@ -139,4 +140,32 @@ func canon(buf *bytes.Buffer, v any) {
 		b, _ := json.Marshal(x)
 		buf.Write(b)
 	}
+}
+
+// IsValid calls the object's own IsValid with the given network id. ok=false when v has none.
+func IsValid(v any, nid []byte) (err error, ok bool) {
+	defer func() {
+		if r := recover(); r != nil {
+			err, ok = fmt.Errorf("panic in IsValid: %v", r), true
+		}
+	}()
+	switch x := v.(type) {
+	case util.IsValider:
+		return x.IsValid(nid), true
+	case interface{ IsValid(base.NetworkID) error }:
+		return x.IsValid(base.NetworkID(nid)), true
+	}
+	return nil, false
+}
+
+// AllHints lists every hint string registered by launch.LoadHinters.
+func AllHints() []string {
+	var hs []string
+	for _, d := range launch.Hinters {
+		hs = append(hs, d.Hint.String())
+	}
+	for _, d := range launch.SupportedProposalOperationFactHinters {
+		hs = append(hs, d.Hint.String())
+	}
+	return hs
 }
